@@ -45,10 +45,11 @@ RECURSIVE RtBad(_, _)
 RtBad(r, n) ==
     IF n > Len(r.rts) THEN ""
     ELSE LET e == r.rts[n]
+             s == St(r.objs[e.i])
          IN IF ~e.back.ok THEN "roundtrip-str-raised " \o ToString(e.i)
-            ELSE IF ~e.eq THEN "roundtrip-str-not-equal " \o ToString(e.i)
+            ELSE IF ~e.eq THEN "roundtrip-str-not-equal " \o ToString(e.i) \o " " \o StyleDiffX(St(e.back.st), s)
             ELSE IF ~e.nback.ok THEN "roundtrip-normalize-raised " \o ToString(e.i)
-            ELSE IF ~e.neq THEN "roundtrip-normalize-not-equal " \o ToString(e.i)
+            ELSE IF ~e.neq THEN "roundtrip-normalize-not-equal " \o ToString(e.i) \o " " \o StyleDiffX(St(e.nback.st), s)
             ELSE RtBad(r, n + 1)
 RECURSIVE RtDrift(_, _)
 RtDrift(r, n) ==
@@ -99,8 +100,9 @@ Expected(r, l) ==
       [] e.op = "str"       -> In(r, e.i)
 StepBad(r, l) ==
     LET e == r.steps[l] IN
-    IF ~e.out.ok THEN "raised"
-    ELSE IF e.op \in {"parse", "normparse"} /\ ~(Parse(e.toks).ok /\ Parse(e.toks).st = St(e.st)) THEN "spec-parse-differs"
+    IF e.op \in {"parse", "normparse"} /\ ~Parse(e.toks).ok THEN ""     \* not a definition: judged by "gram" records only
+    ELSE IF ~e.out.ok THEN "raised"
+    ELSE IF e.op \in {"parse", "normparse"} /\ Parse(e.toks).st # St(e.st) THEN "spec-parse-differs"
     ELSE IF St(e.out.st) # Expected(r, l) THEN "value-differs " \o StyleDiff(St(e.out.st), Expected(r, l))
     ELSE ""
 RECURSIVE RouteBad(_, _, _)
@@ -115,7 +117,7 @@ GramV(r) ==
     LET P == Parse(r.toks) IN
     IF P.ok /\ Plain(r.toks)
     THEN IF ~r.out.ok THEN "parse-rejects"
-         ELSE IF St(r.out.st) # P.st THEN "parse-differs " \o StyleDiff(St(r.out.st), P.st)
+         ELSE IF St(r.out.st) # P.st THEN "parse-differs " \o StyleDiffX(St(r.out.st), P.st)
          ELSE "ok"
     ELSE "ok"
 GramDrift(r) ==
